@@ -206,7 +206,14 @@ func (g *G) Expr(d int, leaves []string) string {
 		}
 		return "G[" + g.Type(1) + "](" + g.Expr(d-1, leaves) + ")"
 	case 15:
-		return g.Type(1+g.R.Intn(2)) + "(" + g.Expr(d-1, leaves) + ")"
+		// go/printer writes a conversion to a function type or to a receive-only channel type with parentheses around
+		// the type: code without them is not what any formatted file contains, and it changes its tree (a ParenExpr
+		// appears) as soon as it has been printed once
+		t := g.Type(1 + g.R.Intn(2))
+		if strings.HasPrefix(t, "func") || strings.HasPrefix(t, "<-") {
+			t = "(" + t + ")"
+		}
+		return t + "(" + g.Expr(d-1, leaves) + ")"
 	case 16:
 		return "func() { " + g.pick(g.Funcs) + "(" + g.Expr(d-1, leaves) + ") }"
 	default:
